@@ -10,7 +10,7 @@ C19 property theorems.
   `amt`/`height + finalDelta` to the receiver and its totals are the sums of
   the per-hop fees and gaps.
 -/
-import LndModel.C19.Lemmas
+import LndModel.C19.ReachLemmas
 
 namespace LndModel.C19
 
@@ -22,6 +22,14 @@ theorem checker_meaning (g : Graph) (r : Req) (rt : Route) (H : routeOK g r rt =
   obtain ⟨⟨⟨⟨⟨h1, h2⟩, h3⟩, h4⟩, h5⟩, h6⟩ := H
   have hc := chainOK_valid h2
   exact ⟨h1, hc.1, hc.2, h3, h4, h5, h6⟩
+
+/-- … and conversely the checker accepts every route that satisfies the property:
+    the monitor never fires on a route for which the property holds. -/
+theorem checker_complete (g : Graph) (r : Req) (rt : Route) (H : RouteValid g r rt) :
+    routeOK g r rt = true := by
+  obtain ⟨h1, h2, h3, h4, h5, h6, h7⟩ := H
+  simp only [routeOK, Bool.and_eq_true, beq_iff_eq, decide_eq_true_eq]
+  exact ⟨⟨⟨⟨⟨h1, chainOK_complete h2 h3⟩, h4⟩, h5⟩, h6⟩, h7⟩
 
 /-- Soundness of route construction, for every path and every final-hop
     parameters (no-overflow hypothesis `Fits`). -/
@@ -41,6 +49,59 @@ theorem newRoute_sound (g : Graph) (src : Nat) (es : List UEdge) (height amt fde
     have hs := fees_sums hfees
     have hc := buildI_chans height amt fdelta (e :: rest)
     exact ⟨hfees, hs.1, hs.2, hc.1, hc.2⟩
+
+/-- Soundness of the search, under Dijkstra's finality discipline as an explicit
+    hypothesis: if the chain `E` that `findPath` returns was built by relaxing,
+    from the target backwards, each edge with the entry that is finally stored
+    for its head node (`Reach`: every edge is the one `getEdge` picks —
+    `amtInRange`, disabled filter, local bandwidth, outgoing-channel restriction
+    — and passes `processEdge` — fee limit and CLTV limit on the accumulated
+    totals, ignored nodes/pairs — and the last-hop restriction holds), and only
+    the first edge leaves the source, then `newRoute E` succeeds and the route
+    satisfies the complete property `RouteValid`; the amount the search
+    accounted for at the source is the route's total amount.
+
+    Full statement (not proved): the same for every run of the relaxation
+    system, with finality ("the entry of a popped node is never overwritten")
+    derived from the monotonicity of the distance along extensions instead of
+    being assumed through `Reach`. -/
+theorem search_sound_partial (g : Graph) (r : Req) (hg : GraphOK g) {y : Entry} {E : List UEdge}
+    (hR : Reach g r r.source y E) (hne : E ≠ [])
+    (hsrc : ∀ e ∈ E.tail, e.frm ≠ r.source)
+    (hf : Fits r.height r.amt r.finalDelta E) :
+    ∃ rt, newRoute r.source E r.height r.amt r.finalDelta = some rt ∧ RouteValid g r rt ∧
+      rt.totalAmt = y.recv := by
+  cases E with
+  | nil => exact absurd rfl hne
+  | cons e path =>
+    have inv := reach_inv hg hR e path rfl hsrc hf
+    rw [newRoute_eq hf]
+    refine ⟨_, rfl, ?_, ?_⟩
+    · have hfees := buildI_fees g (e :: path) (h := r.height) (amt := r.amt) (fd := r.finalDelta)
+        inv.pathIn
+      have hs := fees_sums hfees
+      have hesrc : e.frm = r.source := (PathIn_head inv.pathIn).2
+      obtain ⟨hamt, hhf⟩ := fits_base (es := e :: path) (by simp) hf
+      obtain ⟨_, httl⟩ := fits_top (es := e :: path) (by simp) hf
+      refine ⟨rfl, inv.hops, hfees, inv.feeLim, ?_, hs.1, hs.2⟩
+      have hc := inv.cltv
+      have hl := inv.cltvLim
+      have hdl : r.dlOf e = 0 := by simp [Req.dlOf, hesrc]
+      rw [hdl] at hc
+      rw [hc] at hl
+      rw [i32_of_range (by omega) (by omega), i32_of_range (by omega) (by omega)] at hl
+      unfold u64OfInt at hl
+      show (buildI r.height r.amt r.finalDelta (e :: path)).2.2 ≤ _
+      omega
+    · have hesrc : e.frm = r.source := (PathIn_head inv.pathIn).2
+      obtain ⟨hA, _⟩ := fits_top (es := e :: path) (by simp) hf
+      have ho := inv.out
+      have hr := inv.recv
+      have : r.outOf e (buildI r.height r.amt r.finalDelta (e :: path)).2.1 = 0 := by
+        simp [Req.outOf, hesrc]
+      rw [this] at ho
+      rw [ho, Nat.add_zero, u64_of_lt (by omega)] at hr
+      exact hr.symm
 
 /-! ### Non-vacuity -/
 
@@ -74,5 +135,14 @@ example : routeOK exGraph exReq { exRoute with totalAmt := 1010499 } = false := 
 example : PathIn exGraph 0 exEdges ∧ Fits 800000 1000000 9 exEdges := by
   refine ⟨⟨⟨_, _, rfl, rfl, rfl, by decide⟩, rfl, rfl, ⟨_, _, rfl, rfl, rfl, by decide⟩, rfl⟩, ?_⟩
   refine ⟨⟨by decide, by decide⟩, ⟨by decide, by decide, by decide, by decide, by decide⟩, by decide⟩
+
+/-- the hypotheses of `search_sound_partial` are satisfiable: the search reaches the
+    source of `exReq` over exactly `exEdges`. -/
+example : GraphOK exGraph ∧ Reach exGraph exReq exReq.source ⟨1010500, 0, 800049⟩ exEdges ∧
+    (∀ e ∈ exEdges.tail, e.frm ≠ exReq.source) := by
+  refine ⟨⟨by decide, by decide⟩, ?_, by decide⟩
+  have h1 : Reach exGraph exReq 1 ⟨1011000, 11000, 800049⟩ [⟨2, 1, 2, 1000, 10000, 40, 0, 0, 100000⟩] :=
+    Reach.step Reach.start (by decide) (by decide) (by decide)
+  exact Reach.step h1 (by intro h; cases h) (by decide) (by decide)
 
 end LndModel.C19
